@@ -174,6 +174,22 @@ impl Dinic {
     }
 }
 
+#[cfg(feature = "verif")]
+impl Dinic {
+    /// (source, target, capacity) of every edge of the residual graph
+    pub fn verif_residual(&self) -> Vec<(NodeID, NodeID, i32)> {
+        let graph = &self.residual_graph;
+        graph
+            .node_range()
+            .flat_map(|u| {
+                graph
+                    .edge_range(u)
+                    .map(move |e| (u, graph.target(e), graph.data(e).capacity))
+            })
+            .collect()
+    }
+}
+
 impl MaxFlow for Dinic {
     fn from_edge_list(
         mut edge_list: Vec<InputEdge<ResidualEdgeData>>,
@@ -265,6 +281,8 @@ impl MaxFlow for Dinic {
             flow += self.dfs();
             if let Some(bound) = &self.bound {
                 // break early if an upper bound is known to the computation
+                #[cfg(feature = "verif")]
+                crate::verif_hooks::yield_point(crate::verif_hooks::YieldKind::BoundLoad, flow);
                 if flow > bound.load(Ordering::Relaxed) {
                     debug!("aborting max flow computation at {flow}");
                     self.max_flow = flow;
@@ -273,6 +291,8 @@ impl MaxFlow for Dinic {
             }
         }
         if let Some(bound) = &self.bound {
+            #[cfg(feature = "verif")]
+            crate::verif_hooks::yield_point(crate::verif_hooks::YieldKind::BoundFetchMin, flow);
             bound.fetch_min(flow, Ordering::Relaxed);
         }
         self.max_flow = flow;
